@@ -35,3 +35,30 @@ JOBS += parse_jobs('parse_column_chunk', 'h_parse_column_chunk', callees=['parse
 JOBS += parse_jobs('parse_row_group', 'h_parse_row_group', callees=['parse_column_chunk'], loops=2)
 JOBS += parse_jobs('parquet_parse_file_metadata', 'h_parse_file_metadata', callees=['parse_schema_element', 'parse_row_group'], loops=5, est=60)
 JOBS += parse_jobs('parquet_parse_page_header', 'h_parse_page_header', loops=4, est=40)
+
+# ---- C13 writer conformance: thrift_write_* are checking bodies (-DCQV_PT_WRITER); pointer checks off -------------
+TRUST_W = ['stubs/ptypes_stubs.c (-DCQV_PT_WRITER): thrift_write_* replaced by bodies that keep a ghost stack of open structs and '
+           'assert specs/parquet_thrift_table.h (written from parquet.thrift); buffer effects of the encoder not modelled '
+           '(status may become an error at any primitive)']
+W = dict(prop='C13', overlays=['contracts/ptypes.ovl'], includes=['.'], harness='harness/C13/ptypes.c',
+         extra_sources=['stubs/mem_stubs.c', 'stubs/ptypes_stubs.c'], trusted=TRUST_W, checks=['--bounds-check'],
+         unwind=13)  # the only unwound loop: ghost-state havoc in the harness (12 records)
+
+
+def writer_job(fn, entry, callees=(), loops=0, **kw):
+    d = dict(name='c13_' + fn, entry=entry, enforce=fn, replace=list(callees), min_loop_obligations=loops,
+             defines=['CQV_PT_WRITER=1', 'CQV_FN_%s=1' % fn], loop_contracts=True, wip=True, **W)
+    d.update(kw)
+    return d
+
+
+JOBS += [
+    writer_job('write_statistics', 'h_write_statistics'),
+    writer_job('write_logical_type', 'h_write_logical_type'),
+    writer_job('write_schema_element', 'h_write_schema_element', callees=['write_logical_type']),
+    writer_job('write_column_metadata', 'h_write_column_metadata', callees=['write_statistics'], loops=2),
+    writer_job('write_column_chunk', 'h_write_column_chunk', callees=['write_column_metadata']),
+    writer_job('write_row_group', 'h_write_row_group', callees=['write_column_chunk'], loops=1),
+    writer_job('parquet_write_file_metadata', 'h_write_file_metadata', callees=['write_schema_element', 'write_row_group'], loops=3),
+    writer_job('parquet_write_page_header', 'h_write_page_header', callees=['write_statistics']),
+]
